@@ -6,6 +6,7 @@ import (
 	"encoding/hex"
 	"fmt"
 	"reflect"
+	"sort"
 	"strings"
 	"testing"
 
@@ -37,7 +38,7 @@ func allCodecs() []verifcodec.Codec {
 	return out
 }
 
-const ruleC21 = "for each of the 29 generated codecs: values built by a reflection-driven generator (edge-biased integers, random byte arrays, nil / empty / 1-6 element slices, slice and string lengths at maxlen-1, maxlen, maxlen+1 where maxlen <= 1024 and, in thorough, a few at 65535+-1) and byte strings (valid encodings with byte edits, any 4 bytes patched to a boundary length value, truncations at random cuts, extensions, random bytes); oracle: three voices - generated code, reflection encoder, independent reference encoder - must agree on bytes and size, both decoders on success/error kind, consumed length and decoded value, exact decoding re-encodes to the input, no panic; non-trivial = value has a non-empty slice or a boundary length / byte string is a mutation; distinct by (codec, bytes)"
+const ruleC21 = "for each of the 29 generated codecs: values built by a reflection-driven generator (edge-biased integers, random byte arrays, nil / empty / 1-6 element slices, slice and string lengths at maxlen-1, maxlen, maxlen+1 where maxlen <= 1024 and, in thorough, a few at 65535+-1) and byte strings (valid encodings with byte edits, any 4 bytes patched to a boundary length value, length prefixes of fields without a limit of their own rewritten to the limits other fields have (+-1) with padding, truncations at random cuts, extensions, random bytes); oracle: three voices - generated code, reflection encoder, independent reference encoder - must agree on bytes and size, both decoders on success/error kind, consumed length and decoded value, exact decoding re-encodes to the input, no panic; non-trivial = value has a non-empty slice or a boundary length / byte string is a mutation; distinct by (codec, bytes)"
 
 type genCtx = gen.Filler
 
@@ -231,6 +232,14 @@ func mutateBytes(t *rapid.T, b []byte, maxlens []int, lens []enc.LenAt) ([]byte,
 		cands := []uint32{0, 1, uint32(len(b) - l.Off - 4), uint32(len(b)-l.Off-4) + 1, 0x7fffffff, 0xffffffff}
 		if l.MaxLen > 0 {
 			cands = []uint32{uint32(l.MaxLen), uint32(l.MaxLen), uint32(l.MaxLen + 1), uint32(l.MaxLen - 1), uint32(l.MaxLen), 0, 0xffffffff}
+		} else if len(globalMaxlens) > 0 && rapid.Bool().Draw(t, "foreign_limit") {
+			// a field for which the struct tags name no limit: aim at the limits other fields of the code base have, so
+			// that a limit known to only one of the decoders (generated code and struct tags out of step) shows
+			m := rapid.SampledFrom(globalMaxlens).Draw(t, "foreign_maxlen")
+			v := uint32(m + rapid.IntRange(-1, 1).Draw(t, "foreign_delta"))
+			binary.LittleEndian.PutUint32(b[l.Off:], v)
+			b = append(b[:l.Off+4:l.Off+4], make([]byte, int(v)+2+rapid.IntRange(0, 40).Draw(t, "pad"))...)
+			return b, "len_aimed_foreign_limit"
 		}
 		binary.LittleEndian.PutUint32(b[l.Off:], rapid.SampledFrom(cands).Draw(t, "lenval"))
 		switch rapid.IntRange(0, 3).Draw(t, "after") {
@@ -276,6 +285,9 @@ func mutateBytes(t *rapid.T, b []byte, maxlens []int, lens []enc.LenAt) ([]byte,
 	}
 }
 
+// every maxlen value (2..1024) that occurs in a struct tag of any of the codec types
+var globalMaxlens []int
+
 func maxlensOf(t reflect.Type, out *[]int) {
 	switch t.Kind() {
 	case reflect.Struct:
@@ -299,6 +311,20 @@ func TestC21_Codecs(t *testing.T) {
 		t.Fatalf("expected 29 generated codecs, registry has %d", len(codecs))
 	}
 	r.Set("codecs", len(codecs))
+	if len(globalMaxlens) == 0 {
+		seen := map[int]bool{}
+		for _, c := range codecs {
+			var mls []int
+			maxlensOf(reflect.TypeOf(c.New()).Elem(), &mls)
+			for _, m := range mls {
+				if m >= 2 && m <= 1024 && !seen[m] {
+					seen[m] = true
+					globalMaxlens = append(globalMaxlens, m)
+				}
+			}
+		}
+		sort.Ints(globalMaxlens)
+	}
 	for _, c := range codecs {
 		c := c
 		var mls []int
